@@ -9,7 +9,7 @@ namespace Model
 
 /-- two different inputs with the same hash: every theorem that needs a cryptographic fact has
 this as an explicit disjunct of its conclusion (DESIGN §2.3) -/
-def Collision (h : Bytes → Bytes) : Prop := ∃ x y, x ≠ y ∧ h x = h y
+def Collision {α β : Type} (h : α → β) : Prop := ∃ x y, x ≠ y ∧ h x = h y
 
 /-- the state after a sequence of arrivals through `add_block_no_validation` -/
 def foldBlocks (C : Crypto) : CoinState → List Block → Except Err CoinState
